@@ -863,6 +863,35 @@ func checkC08(c *Ctx, r *Report) {
 				}
 				ok = haveResp && haveNoBody
 			}
+			// the choice may have been moved into a helper (body := responseBody(req, resp))
+			if hc, isCall := body.(*ssa.Call); isCall && !ok {
+				if h := helperBody(hc); h != nil {
+					var haveResp, haveNoBody, other bool
+					eachInstr(h, func(in ssa.Instruction) {
+						ret, isRet := in.(*ssa.Return)
+						if !isRet || isRecoverReturn(ret) || len(ret.Results) != 1 {
+							return
+						}
+						v := unconv(retVals(ret)[0])
+						if prm, isP := v.(*ssa.Parameter); isP {
+							if a, _, okA := paramArg(prm, dctx{hc}); okA && unconv(a) == ssa.Value(paramNamed(f, "resp")) {
+								haveResp = true
+								return
+							}
+						}
+						if u, isU := v.(*ssa.UnOp); isU {
+							if g, isG := u.X.(*ssa.Global); isG && g.Name() == "NoBody" {
+								if hasFact(ctxFactStrs(h, ret, dctx{hc}), `$req.Method=="HEAD"`, true) {
+									haveNoBody = true
+									return
+								}
+							}
+						}
+						other = true
+					})
+					ok = haveResp && haveNoBody && !other
+				}
+			}
 			r.Check(ok, "C08.R5", "body is the given reader, or NoBody exactly for HEAD", c.InstrPos(call), "phi(resp, http.NoBody under Method==HEAD)", "the body written is not the reader passed in (or HEAD handling changed)")
 		})
 	}
